@@ -22,7 +22,6 @@ Proof. destruct w; cbn; split; intros H; try discriminate; auto. Qed.
 
 Inductive reach_res :=
 | RAt (x : node)      (* the continuation is applied to x *)
-| RLastEmpty          (* a "-" part meets an empty sequence or a null node *)
 | RStop.              (* path absent or malformed: the continuation is not applied *)
 
 Fixpoint reach (cr : option kind) (ps : list part) (n : node) {struct ps} : reach_res :=
@@ -52,13 +51,13 @@ Fixpoint reach (cr : option kind) (ps : list part) (n : node) {struct ps} : reac
           match n with
           | Seq es =>
               match es with
-              | [] => RLastEmpty
+              | [] => RStop
               | _ => match nth_error es (List.length es - 1) with
                      | Some e => reach cr ps' e
-                     | None => RLastEmpty
+                     | None => RStop
                      end
               end
-          | _ => if is_null n then RLastEmpty else RStop
+          | _ => RStop
           end
       | PSel nm v =>
           match n with
@@ -76,63 +75,54 @@ Fixpoint reach (cr : option kind) (ps : list part) (n : node) {struct ps} : reac
       end
   end.
 
+Lemma nth_last_some {T} (e0 : T) es : exists e, nth_error (e0 :: es) (List.length (e0 :: es) - 1) = Some e.
+Proof.
+  assert (H : List.length (e0 :: es) - 1 < List.length (e0 :: es)) by (cbn; lia).
+  apply nth_error_Some in H. destruct (nth_error _ _) as [e|]; [eauto|congruence].
+Qed.
+
 Section Walk.
   Context {A : Type}.
   Variable k : node -> res (node * A).
 
-  (* walk panics exactly when the traversal meets "-" on an empty sequence / null node,
-     or reaches a node on which the continuation itself panics *)
+  Ltac stop := split; [discriminate | intros [x [H _]]; discriminate].
+
+  (* walk has no panic of its own (since fix 5cf7cc6 of ElementIndexer): it returns Panic exactly
+     when it reaches a node on which the continuation panics *)
   Lemma walk_panic_iff cr ps : forall n,
-    walk cr ps k n = Panic <->
-    (reach cr ps n = RLastEmpty \/ exists x, reach cr ps n = RAt x /\ k x = Panic).
+    walk cr ps k n = Panic <-> exists x, reach cr ps n = RAt x /\ k x = Panic.
   Proof.
     induction ps as [|p ps IH]; intros n.
     - cbn. rewrite bind_ok_panic. split.
-      + intros H. right. exists n. auto.
-      + intros [H|[x [H1 H2]]]; [discriminate|]. inv H1. exact H2.
+      + intros H. exists n. auto.
+      + intros [x [H1 H2]]. inv H1. exact H2.
     - destruct p; cbn.
-      + (* PKey *)
-        destruct n as [t s v|kvs|es].
-        * destruct (is_null _); split; try discriminate; intros [H|[x [H _]]]; discriminate.
+      + destruct n as [t s v|kvs|es].
+        * destruct (is_null _); stop.
         * destruct (find_field k0 kvs) as [x|].
           -- rewrite bind_ok_panic. apply IH.
-          -- destruct cr as [leaf|].
-             ++ rewrite bind_ok_panic. apply IH.
-             ++ split; try discriminate; intros [H|[x [H _]]]; discriminate.
-        * split; try discriminate; intros [H|[x [H _]]]; discriminate.
-      + (* PIdx *)
-        destruct n as [t s v|kvs|es].
-        * destruct (is_null _); split; try discriminate; intros [H|[x [H _]]]; discriminate.
-        * split; try discriminate; intros [H|[x [H _]]]; discriminate.
-        * destruct (nth_error es i) as [e|].
-          -- rewrite bind_ok_panic. apply IH.
-          -- split; try discriminate; intros [H|[x [H _]]]; discriminate.
-      + (* PLast *)
-        destruct n as [t s v|kvs|es].
-        * destruct (is_null _); split; auto; try discriminate; intros [H|[x [H _]]]; discriminate.
-        * cbn. split; try discriminate; intros [H|[x [H _]]]; discriminate.
-        * destruct es as [|e0 es']; [split; auto|].
-          destruct (nth_error (e0 :: es') (List.length (e0 :: es') - 1)) as [e|].
-          -- rewrite bind_ok_panic. apply IH.
-          -- split; auto.
-      + (* PSel *)
-        destruct n as [t s v0|kvs|es].
-        * destruct (is_null _).
-          -- destruct cr as [leaf|].
-             ++ rewrite bind_ok_panic. apply IH.
-             ++ split; try discriminate; intros [H|[x [H _]]]; discriminate.
-          -- split; try discriminate; intros [H|[x [H _]]]; discriminate.
-        * cbn. split; try discriminate; intros [H|[x [H _]]]; discriminate.
+          -- destruct cr as [leaf|]; [rewrite bind_ok_panic; apply IH|stop].
+        * stop.
+      + destruct n as [t s v|kvs|es].
+        * destruct (is_null _); stop.
+        * stop.
+        * destruct (nth_error es i) as [e|]; [rewrite bind_ok_panic; apply IH|stop].
+      + destruct n as [t s v|kvs|es].
+        * destruct (is_null _); stop.
+        * cbn. stop.
+        * destruct es as [|e0 es']; [stop|].
+          destruct (nth_last_some e0 es') as [e He]. rewrite He.
+          rewrite bind_ok_panic. apply IH.
+      + destruct n as [t s v0|kvs|es].
+        * destruct (is_null _); [|stop].
+          destruct cr as [leaf|]; [rewrite bind_ok_panic; apply IH|stop].
+        * cbn. stop.
         * destruct (find_index (sel_match nm v) es) as [i|].
-          -- destruct (nth_error es i) as [e|].
-             ++ rewrite bind_ok_panic. apply IH.
-             ++ split; try discriminate; intros [H|[x [H _]]]; discriminate.
-          -- destruct cr as [leaf|].
-             ++ rewrite bind_ok_panic. apply IH.
-             ++ split; try discriminate; intros [H|[x [H _]]]; discriminate.
-      + split; try discriminate; intros [H|[x [H _]]]; discriminate.
-      + split; try discriminate; intros [H|[x [H _]]]; discriminate.
-      + split; try discriminate; intros [H|[x [H _]]]; discriminate.
+          -- destruct (nth_error es i) as [e|]; [rewrite bind_ok_panic; apply IH|stop].
+          -- destruct cr as [leaf|]; [rewrite bind_ok_panic; apply IH|stop].
+      + stop.
+      + stop.
+      + stop.
   Qed.
 
   (* walk has no fuel: it can only "diverge" by handing on a Diverge of its continuation *)
@@ -145,43 +135,31 @@ Section Walk.
       + intros [x [H1 H2]]. inv H1. exact H2.
     - destruct p; cbn.
       + destruct n as [t s v|kvs|es].
-        * destruct (is_null _); split; try discriminate; intros [x [H _]]; discriminate.
+        * destruct (is_null _); stop.
         * destruct (find_field k0 kvs) as [x|].
           -- rewrite bind_ok_diverge. apply IH.
-          -- destruct cr as [leaf|].
-             ++ rewrite bind_ok_diverge. apply IH.
-             ++ split; try discriminate; intros [x [H _]]; discriminate.
-        * split; try discriminate; intros [x [H _]]; discriminate.
+          -- destruct cr as [leaf|]; [rewrite bind_ok_diverge; apply IH|stop].
+        * stop.
       + destruct n as [t s v|kvs|es].
-        * destruct (is_null _); split; try discriminate; intros [x [H _]]; discriminate.
-        * split; try discriminate; intros [x [H _]]; discriminate.
-        * destruct (nth_error es i) as [e|].
-          -- rewrite bind_ok_diverge. apply IH.
-          -- split; try discriminate; intros [x [H _]]; discriminate.
+        * destruct (is_null _); stop.
+        * stop.
+        * destruct (nth_error es i) as [e|]; [rewrite bind_ok_diverge; apply IH|stop].
       + destruct n as [t s v|kvs|es].
-        * destruct (is_null _); split; try discriminate; intros [x [H _]]; discriminate.
-        * cbn. split; try discriminate; intros [x [H _]]; discriminate.
-        * destruct es as [|e0 es']; [split; try discriminate; intros [x [H _]]; discriminate|].
-          destruct (nth_error (e0 :: es') (List.length (e0 :: es') - 1)) as [e|].
-          -- rewrite bind_ok_diverge. apply IH.
-          -- split; try discriminate; intros [x [H _]]; discriminate.
+        * destruct (is_null _); stop.
+        * cbn. stop.
+        * destruct es as [|e0 es']; [stop|].
+          destruct (nth_last_some e0 es') as [e He]. rewrite He.
+          rewrite bind_ok_diverge. apply IH.
       + destruct n as [t s v0|kvs|es].
-        * destruct (is_null _).
-          -- destruct cr as [leaf|].
-             ++ rewrite bind_ok_diverge. apply IH.
-             ++ split; try discriminate; intros [x [H _]]; discriminate.
-          -- split; try discriminate; intros [x [H _]]; discriminate.
-        * cbn. split; try discriminate; intros [x [H _]]; discriminate.
+        * destruct (is_null _); [|stop].
+          destruct cr as [leaf|]; [rewrite bind_ok_diverge; apply IH|stop].
+        * cbn. stop.
         * destruct (find_index (sel_match nm v) es) as [i|].
-          -- destruct (nth_error es i) as [e|].
-             ++ rewrite bind_ok_diverge. apply IH.
-             ++ split; try discriminate; intros [x [H _]]; discriminate.
-          -- destruct cr as [leaf|].
-             ++ rewrite bind_ok_diverge. apply IH.
-             ++ split; try discriminate; intros [x [H _]]; discriminate.
-      + split; try discriminate; intros [x [H _]]; discriminate.
-      + split; try discriminate; intros [x [H _]]; discriminate.
-      + split; try discriminate; intros [x [H _]]; discriminate.
+          -- destruct (nth_error es i) as [e|]; [rewrite bind_ok_diverge; apply IH|stop].
+          -- destruct cr as [leaf|]; [rewrite bind_ok_diverge; apply IH|stop].
+      + stop.
+      + stop.
+      + stop.
   Qed.
 
   Lemma walk_never_diverges cr ps n :
@@ -190,130 +168,12 @@ Section Walk.
     intros Hk H. apply walk_diverge_iff in H. destruct H as [x [_ H]]. exact (Hk x H).
   Qed.
 
-  Lemma walk_panic_only_last_on_empty cr ps n :
-    (forall x, k x <> Panic) ->
-    (walk cr ps k n = Panic <-> reach cr ps n = RLastEmpty).
+  Lemma walk_never_panics cr ps n :
+    (forall x, k x <> Panic) -> walk cr ps k n <> Panic.
   Proof.
-    intros Hk. rewrite walk_panic_iff. split; auto.
-    intros [H|[x [_ H]]]; auto. destruct (Hk x H).
+    intros Hk H. apply walk_panic_iff in H. destruct H as [x [_ H]]. exact (Hk x H).
   Qed.
 End Walk.
-
-(* ------------------------------------------------------------------------------------------ *)
-(* RLastEmpty spelled out: some "-" in the path is applied to an empty sequence or a null node  *)
-
-Definition empty_or_null (x : node) : Prop := x = Seq [] \/ is_null x = true.
-
-Lemma nth_last_some {T} (e0 : T) es : exists e, nth_error (e0 :: es) (List.length (e0 :: es) - 1) = Some e.
-Proof.
-  assert (H : List.length (e0 :: es) - 1 < List.length (e0 :: es)) by (cbn; lia).
-  apply nth_error_Some in H. destruct (nth_error _ _) as [e|]; [eauto|congruence].
-Qed.
-
-Lemma reach_last_empty_sound cr ps : forall n,
-  reach cr ps n = RLastEmpty ->
-  exists pre post, ps = (pre ++ PLast :: post)%list.
-Proof.
-  induction ps as [|p ps IH]; intros n H; [discriminate|].
-  destruct p; cbn in H.
-  - destruct n as [t s v|kvs|es]; try discriminate.
-    destruct (find_field k kvs) as [x|].
-    + apply IH in H. destruct H as [pre [post ->]]. exists (PKey k :: pre), post. reflexivity.
-    + destruct cr; [|discriminate]. apply IH in H. destruct H as [pre [post ->]].
-      exists (PKey k :: pre), post. reflexivity.
-  - destruct n as [t s v|kvs|es]; try discriminate.
-    destruct (nth_error es i); [|discriminate].
-    apply IH in H. destruct H as [pre [post ->]]. exists (PIdx i :: pre), post. reflexivity.
-  - exists [], ps. reflexivity.
-  - destruct n as [t s v0|kvs|es]; try discriminate.
-    + destruct (is_null _); [|discriminate]. destruct cr; [|discriminate].
-      apply IH in H. destruct H as [pre [post ->]]. exists (PSel nm v :: pre), post. reflexivity.
-    + destruct (find_index _ es) as [i|].
-      * destruct (nth_error es i); [|discriminate].
-        apply IH in H. destruct H as [pre [post ->]]. exists (PSel nm v :: pre), post. reflexivity.
-      * destruct cr; [|discriminate].
-        apply IH in H. destruct H as [pre [post ->]]. exists (PSel nm v :: pre), post. reflexivity.
-  - discriminate.
-  - discriminate.
-  - discriminate.
-Qed.
-
-(* one step: "-" on a node *)
-Lemma reach_last_step cr ps n :
-  reach cr (PLast :: ps) n = RLastEmpty <->
-  empty_or_null n \/
-  (exists e0 es e, n = Seq (e0 :: es) /\ nth_error (e0 :: es) (List.length (e0 :: es) - 1) = Some e /\
-                   reach cr ps e = RLastEmpty).
-Proof.
-  cbn [reach]. unfold empty_or_null. destruct n as [t s v|kvs|es].
-  - destruct (is_null (Scalar t s v)) eqn:E.
-    + split; intros _; [left; right; reflexivity|reflexivity].
-    + split; [discriminate|].
-      intros [[H|H]|[e0 [es [e [H _]]]]]; discriminate.
-  - cbn. split; [discriminate|].
-    intros [[H|H]|[e0 [es [e [H _]]]]]; discriminate.
-  - destruct es as [|e0 es'].
-    + split; intros _; [left; left; reflexivity|reflexivity].
-    + destruct (nth_last_some e0 es') as [e He]. rewrite He. split.
-      * intros H. right. exists e0, es', e. auto.
-      * intros [[H|H]|[a [b [c [H1 [H2 H3]]]]]]; try discriminate.
-        inv H1. rewrite He in H2. inv H2. exact H3.
-Qed.
-
-(* without creation the walk is compositional in the path *)
-Lemma reach_none_app pre : forall post n,
-  reach None ((pre ++ post)%list) n =
-  match reach None pre n with RAt x => reach None post x | r => r end.
-Proof.
-  induction pre as [|p pre IH]; intros post n; [reflexivity|].
-  destruct p; cbn.
-  - destruct n as [t s v|kvs|es]; auto. destruct (find_field k kvs); auto.
-  - destruct n as [t s v|kvs|es]; auto. destruct (nth_error es i); auto.
-  - destruct n as [t s v|kvs|es]; auto.
-    + destruct (is_null _); auto.
-    + destruct es as [|e0 es']; auto. destruct (nth_error _ _); auto.
-  - destruct n as [t s v0|kvs|es]; auto.
-    + destruct (is_null _); auto.
-    + destruct (find_index _ es) as [i|]; auto. destruct (nth_error es i); auto.
-  - reflexivity.
-  - reflexivity.
-  - reflexivity.
-Qed.
-
-(* Lookup (no creation): RLastEmpty means precisely that some "-" of the path is applied to a
-   node, reached by the parts before it, that is an empty sequence or null *)
-Lemma reach_none_last_empty_iff ps : forall n,
-  reach None ps n = RLastEmpty <->
-  exists pre post x, ps = (pre ++ PLast :: post)%list /\ reach None pre n = RAt x /\ empty_or_null x.
-Proof.
-  intros n. split.
-  - revert n. induction ps as [|p ps IH]; intros n H; [discriminate|].
-    destruct p.
-    + cbn in H. destruct n as [t s v|kvs|es]; try discriminate.
-      destruct (find_field k kvs) as [x|] eqn:F; [|discriminate].
-      apply IH in H. destruct H as [pre [post [y [-> [H1 H2]]]]].
-      exists (PKey k :: pre), post, y. cbn. rewrite F. auto.
-    + cbn in H. destruct n as [t s v|kvs|es]; try discriminate.
-      destruct (nth_error es i) as [e|] eqn:F; [|discriminate].
-      apply IH in H. destruct H as [pre [post [y [-> [H1 H2]]]]].
-      exists (PIdx i :: pre), post, y. cbn. rewrite F. auto.
-    + apply reach_last_step in H. destruct H as [H|[e0 [es [e [-> [He H]]]]]].
-      * exists [], ps, n. auto.
-      * apply IH in H. destruct H as [pre [post [y [-> [H1 H2]]]]].
-        exists (PLast :: pre), post, y. split; [reflexivity|]. split; [|exact H2].
-        cbn [reach]. rewrite He. exact H1.
-    + cbn in H. destruct n as [t s v0|kvs|es]; try discriminate.
-      * destruct (is_null _); discriminate.
-      * destruct (find_index _ es) as [i|] eqn:F; [|discriminate].
-        destruct (nth_error es i) as [e|] eqn:G; [|discriminate].
-        apply IH in H. destruct H as [pre [post [y [-> [H1 H2]]]]].
-        exists (PSel nm v :: pre), post, y. cbn. rewrite F, G. auto.
-    + discriminate.
-    + discriminate.
-    + discriminate.
-  - intros [pre [post [x [-> [H1 H2]]]]].
-    rewrite reach_none_app, H1. apply reach_last_step. left. exact H2.
-Qed.
 
 (* ------------------------------------------------------------------------------------------ *)
 (* fs_filter (fieldspec.Filter.filter / handleMap / handleSequence)                             *)
@@ -325,15 +185,6 @@ Lemma parse_path_single s : parse_path [s] = [] \/ exists p, parse_path [s] = [p
 Proof.
   unfold parse_path. pose proof (clean_path_single_len s) as H.
   destruct (clean_path [s]) as [|a [|b l]]; cbn in *; [left; auto|right; eauto|lia].
-Qed.
-
-(* a path of at most one part applied to a mapping never ends in "-"-on-empty *)
-Lemma reach_single_on_map cr ps kvs :
-  List.length ps <= 1 -> reach cr ps (Map kvs) <> RLastEmpty.
-Proof.
-  destruct ps as [|p [|q l]]; cbn; intros Hl; try lia; try discriminate.
-  destruct p; cbn; try discriminate.
-  - destruct (find_field k kvs); try discriminate. destruct cr; discriminate.
 Qed.
 
 Section FsFilter.
@@ -396,9 +247,8 @@ Section FsFilter.
       + cbn. destruct t; discriminate.
       + cbn. destruct (trim_suffix "[]" p =? "")%string; [discriminate|].
         intros H. apply bind_ok_panic in H. apply walk_panic_iff in H.
-        destruct H as [H|[x [_ H]]].
-        * revert H. apply reach_single_on_map. destruct (negb _); cbn; lia.
-        * apply bind_ok_panic in H. exact (IHp _ H).
+        destruct H as [x [_ H]].
+        apply bind_ok_panic in H. exact (IHp _ H).
       + rewrite fs_filter_cons_seq. intros H. apply bind_ok_panic in H. revert H.
         apply (goes_bad is_panic); [exact bind_panic_inv|unfold is_panic; discriminate|exact IHe].
   Qed.
@@ -488,46 +338,14 @@ Qed.
 Lemma k_get_total x : k_get x <> Panic /\ k_get x <> Diverge.
 Proof. split; discriminate. Qed.
 
-Lemma lookup_panic_iff ps n : lookup ps n = Panic <-> reach None ps n = RLastEmpty.
+Lemma lookup_never_panics ps n : lookup ps n <> Panic.
 Proof.
-  unfold lookup. rewrite bind_ok_panic.
-  apply walk_panic_only_last_on_empty. intros x. apply k_get_total.
+  unfold lookup. intros H. apply bind_ok_panic in H. revert H.
+  apply walk_never_panics. intros x. apply k_get_total.
 Qed.
 
-Lemma lookup_panic_spec ps n :
-  lookup ps n = Panic <->
-  exists pre post x, ps = (pre ++ PLast :: post)%list /\ lookup pre n = Ok (Some x) /\ empty_or_null x.
-Proof.
-  rewrite lookup_panic_iff, reach_none_last_empty_iff.
-  assert (E : forall pre y, reach None pre n = RAt y <-> lookup pre n = Ok (Some y)).
-  { intros pre. revert n. induction pre as [|p pre IH]; intros n y.
-    - cbn. split; intros H; inv H; reflexivity.
-    - unfold lookup in *. destruct p; cbn.
-      + destruct n as [t s v|kvs|es]; try (destruct (is_null _)); try (split; discriminate).
-        destruct (find_field k kvs) as [c|]; [|split; discriminate].
-        rewrite IH. destruct (walk None pre k_get c) as [[d [r|]]| | |]; cbn; split; intros H; try discriminate; inv H; reflexivity.
-      + destruct n as [t s v|kvs|es]; try (destruct (is_null _)); try (split; discriminate).
-        destruct (nth_error es i) as [c|]; [|split; discriminate].
-        rewrite IH. destruct (walk None pre k_get c) as [[d [r|]]| | |]; cbn; split; intros H; try discriminate; inv H; reflexivity.
-      + destruct n as [t s v|kvs|es]; try (destruct (is_null _)); try (split; discriminate).
-        destruct es as [|e0 es']; [split; discriminate|].
-        destruct (nth_error _ _) as [c|]; [|split; discriminate].
-        rewrite IH. destruct (walk None pre k_get c) as [[d [r|]]| | |]; cbn; split; intros H; try discriminate; inv H; reflexivity.
-      + destruct n as [t s v0|kvs|es]; try (destruct (is_null _)); try (split; discriminate).
-        destruct (find_index _ es) as [i|]; [|split; discriminate].
-        destruct (nth_error es i) as [c|]; [|split; discriminate].
-        rewrite IH. destruct (walk None pre k_get c) as [[d [r|]]| | |]; cbn; split; intros H; try discriminate; inv H; reflexivity.
-      + split; discriminate.
-      + split; discriminate.
-      + split; discriminate. }
-  split; intros [pre [post [x [H1 [H2 H3]]]]]; exists pre, post, x; (split; [exact H1|]); (split; [|exact H3]); apply E; exact H2.
-Qed.
-
-Lemma lookup_create_panic_iff leaf ps n :
-  lookup_create leaf ps n = Panic <-> reach (Some leaf) ps n = RLastEmpty.
-Proof.
-  unfold lookup_create. apply walk_panic_only_last_on_empty. intros x. apply k_get_total.
-Qed.
+Lemma lookup_create_never_panics leaf ps n : lookup_create leaf ps n <> Panic.
+Proof. unfold lookup_create. apply walk_never_panics. intros x. apply k_get_total. Qed.
 
 Lemma lookup_never_diverges ps n : lookup ps n <> Diverge.
 Proof.
@@ -535,24 +353,8 @@ Proof.
   apply walk_never_diverges. intros x. apply k_get_total.
 Qed.
 
-(* a path without "-" never panics *)
-Fixpoint no_last (ps : list part) : bool :=
-  match ps with
-  | [] => true
-  | PLast :: _ => false
-  | _ :: t => no_last t
-  end.
-
-Lemma no_last_app_false pre post : no_last ((pre ++ PLast :: post)%list) = false.
-Proof. induction pre as [|p pre IH]; cbn; [reflexivity|]. destruct p; auto. Qed.
-
-Lemma walk_no_last_no_panic {A} (k : node -> res (node * A)) cr ps n :
-  no_last ps = true -> (forall x, k x <> Panic) -> walk cr ps k n <> Panic.
-Proof.
-  intros Hn Hk H. apply walk_panic_only_last_on_empty in H; auto.
-  apply reach_last_empty_sound in H. destruct H as [pre [post ->]].
-  rewrite no_last_app_false in Hn. discriminate.
-Qed.
+Lemma lookup_create_never_diverges leaf ps n : lookup_create leaf ps n <> Diverge.
+Proof. unfold lookup_create. apply walk_never_diverges. intros x. apply k_get_total. Qed.
 
 (* everything above, instantiated with the setters kustomize really passes to the filter: no hypothesis left *)
 Lemma core_total_summary :
@@ -562,8 +364,8 @@ Lemma core_total_summary :
       let r := fs_filter ck ct (set_scalar v) create path obj in r <> Panic /\ r <> Diverge) /\
   (forall nonstr ck ct name v keep l obj,
       let r := fsslice_apply ck ct (set_field nonstr name v keep) l obj in r <> Panic /\ r <> Diverge) /\
-  (forall ps n, lookup ps n <> Diverge /\ (no_last ps = true -> lookup ps n <> Panic)) /\
-  (forall leaf ps n, lookup_create leaf ps n <> Diverge /\ (no_last ps = true -> lookup_create leaf ps n <> Panic)).
+  (forall ps n, lookup ps n <> Panic /\ lookup ps n <> Diverge) /\
+  (forall leaf ps n, lookup_create leaf ps n <> Panic /\ lookup_create leaf ps n <> Diverge).
 Proof.
   repeat split.
   - apply fs_filter_no_panic. intros n. apply set_field_total.
@@ -572,21 +374,18 @@ Proof.
   - apply fs_filter_no_diverge. intros n. apply set_scalar_total.
   - apply fsslice_apply_no_panic. intros n. apply set_field_total.
   - apply fsslice_apply_no_diverge. intros n. apply set_field_total.
+  - apply lookup_never_panics.
   - apply lookup_never_diverges.
-  - intros Hn H. unfold lookup in H. apply bind_ok_panic in H. revert H.
-    apply walk_no_last_no_panic; auto. intros x. apply k_get_total.
-  - unfold lookup_create. apply walk_never_diverges. intros x. apply k_get_total.
-  - intros Hn. unfold lookup_create. apply walk_no_last_no_panic; auto. intros x. apply k_get_total.
+  - apply lookup_create_never_panics.
+  - apply lookup_create_never_diverges.
 Qed.
 
-(* witnesses: the defect F7c *)
-Lemma last_on_empty_witness :
-  exists n, lookup [PKey "a"; PLast] n = Panic.
-Proof. exists (Map [("a", Seq [])]). reflexivity. Qed.
-
-Lemma last_on_null_witness :
-  exists n, lookup [PKey "a"; PLast] n = Panic.
-Proof. exists (Map [("a", Scalar TNull SPlain "null")]). reflexivity. Qed.
+(* the former defect F7c (fixed by 5cf7cc6): "-" on an empty list or a null node finds nothing *)
+Example last_on_empty_now_absent :
+  lookup (parse_path ["a"; "-"]) (Map [("a", Seq [])]) = Ok None /\
+  lookup (parse_path ["a"; "-"]) (Map [("a", Scalar TNull SPlain "null")]) = Ok None /\
+  lookup (parse_path ["a"; "-"]) (Map [("a", Seq [Scalar TStr SPlain "x"])]) = Ok (Some (Scalar TStr SPlain "x")).
+Proof. repeat split. Qed.
 
 (* non-vacuity: the hypotheses of the filter theorems are met by the setters actually used *)
 Example fs_filter_total_example :
